@@ -15,10 +15,10 @@ CLAIMED = {
          "Every 200/206 body is compared, by entity offset, with exactly the bytes its status and Content-Range name, under adversarial chunkings; the entity's get_range log must match.",
          "Identity is by offset for virtual stretches and by value for literal bytes."),
  "C06": ("exploration", "serve-sim+wire-sim", "4.3", "seeded deterministic simulation; independent tolerant multipart/byteranges parser over delivered frames, and over the de-framed wire bytes behind real hyper",
-         "Multi-range workloads over all decimal widths and entity header sets; an independent parser requires parts = the request's satisfiable ranges in order, exact payloads, entity headers iff no If-Range, close delimiter, exact Content-Length.",
+         "Multi-range workloads over all decimal widths and entity header sets (values also mined from the crate's own string literals, so that data collides with delimiters and header syntax); an independent parser requires parts = the request's satisfiable ranges in order, exact payloads, entity headers iff no If-Range, close delimiter, exact Content-Length. One run in six lets an entity stream fail with an Err: such a body must not end cleanly short of its Content-Length.",
          "Requests containing a spec RFC 7233 and the implementation read differently (suffix >= length, last < first) are checked for consistency only."),
  "C07": ("fault_enumeration", "serve-sim+wire-sim", "4.4", "fault injection on the entity stream seam (early end, error, extra byte/chunk, empty chunks, Pending) at sampled positions; seeded; the same faults behind the real hyper connection: a truncated response must not look complete on the wire",
-         "Exactly one stream fault per run across response shapes, fault kinds, parts, byte positions and chunk indices; the evidence lists grid cells hit. Short/failed streams must surface an error before any clean end; long streams never pass on more than announced.",
+         "One stream fault per run (sometimes a compensating pair) across response shapes, fault kinds, parts, byte positions and chunk indices, on entity streams half of which give their exhaustion away through Stream::size_hint; the evidence lists grid cells hit. Short/failed streams must surface an error before any clean end; long streams never pass on more than announced.",
          "Cells are sampled by seed, not enumerated; the grid reached is reported."),
  "C08": ("exploration", "chunk-sim+thread-sim+miri-sim+wire-sim", "4.5", "seeded operation histories over the real BodyWriter/Body pair checked against an accepted-byte-log reference model; the same oracle with the producer on its own thread (baton scheduler; Miri's seeded scheduler); and behind the real hyper connection over a simulated socket, judged on the de-framed wire bytes",
          "Interleaved producer (write, write_all, flush, drop) and consumer (poll, poll-until-pending) operations over chunk sizes 1..65536; frames must be non-empty, a prefix of the accepted bytes at every step, complete after every flush, and equal to the accepted bytes after the writer is dropped.",
@@ -33,7 +33,7 @@ CLAIMED = {
          "Faults = abort / body drop before any data, mid-chunk, after a flush, after partial consumption, raw and gzip. Abort: next terminal event is an error, never end-of-stream before it, delivered bytes a prefix, later writes/flushes fail. Body drop: flushes with data and chunk-completing writes fail, accepted-without-error bytes stay below one chunk, queued memory is released.",
          "Weaker reading where the text leaves room: a flush with nothing to hand over may return Ok after the body is gone."),
  "C17": ("exploration", "chunk-sim+wire-sim", "4.13", "seeded configurations of streaming_body (Accept-Encoding x level x method x request representation); simulated client decodes according to the response header",
-         "Vary always present; Content-Encoding: gzip iff should_gzip(request) && level > 0; the client picks its decoder from the header and must recover exactly the written bytes; HEAD gets no writer.",
+         "Vary always present; Content-Encoding: gzip iff should_gzip(request) && level > 0 (Accept-Encoding values from a table and generated: 1-4 codings with optional qualities in any order; builder calls in any interleaving); the client picks its decoder from the header and must recover exactly the written bytes; HEAD gets no writer; an earlier response on the same thread (own history, possibly ending in a client disconnect or abort, possibly the same configuration) precedes half of the runs.",
          "should_gzip itself is the negotiation oracle, as the property states."),
  "C12": ("exploration", "serve-sim+chunk-sim+thread-sim+file-sim+miri-sim", "4.9", "per-step invariant monitor attached to every simulated consumer (all engines, incl. a consumer thread racing a producer thread under the baton scheduler and under Miri's seeded scheduler)",
          "size_hint()/is_end_stream() sampled before every poll in all engines; bounds must bracket what is later delivered on a clean end, exactness for serve/Body::from, and nothing but the end may follow a true end-of-stream flag.",
